@@ -17,7 +17,7 @@ NOTE = ('trusted: rustc + Kani MIR->GOTO translation, CBMC 6.11 + CaDiCaL, Verus
 CLAIMED = {
     'C02': ('proof', 'precedence / associativity / parenthesis predicates of BinaryOperator and TypeCastExpression, the token-fusion '
                      'predicate and break_* predicates, and the dense/readable cursor operations carry contracts taken from the Lua '
-                     'precedence table and lexer rules; proved for all operator pairs / all chars, cursor ops bounded'),
+                     'precedence table and lexer rules; proved for all operator pairs / all chars; expression_ends_with_prefix (statement separator `;`) proved for every expression tree by structural induction (Verus); cursor ops bounded'),
     'C03': ('other', 'generator half only, bounded: the token-based writer appends exactly leading trivia ++ token text ++ trailing trivia, '
                      'verbatim and in order, inserting nothing in the byte-for-byte situation; Token/Trivia::read return code[start..end]. '
                      'The converter half (ast_converter records every token) is out of reach and stated as not covered'),
@@ -29,7 +29,7 @@ CLAIMED = {
                      'bounded otherwise); byte-range reads under the explicit caller obligation that the range belongs to the text. '
                      'Parser, converter, rule pipelines and error plumbing are not covered'),
     'C13': ('proof', 'literal kernel: must-escape byte classes for all 256 bytes, quote choice, hex/binary literal values for all 64-bit digits and '
-                     'all 32-bit exponents; the escape reader only on enumerated inputs (symbolic input is out of reach, measured); '
+                     'all 32-bit exponents; the escape reader and hex / binary literal parsing only on enumerated inputs (symbolic input is out of reach, measured); '
                      'escape(), write_quoted, write_number, decimal parsing are out of reach (format!/float formatting)'),
     'C14': ('proof', 'key-quoting + scalar kernel: every integer / float handed to the serde Serializer becomes a number expression holding the '
                      'nearest double, booleans and null are kept (proved for all values); is_valid_identifier(s) ==> s is a Lua Name and not '
@@ -42,7 +42,8 @@ CLAIMED = {
                      '(no apply pattern or one matches) and no skip pattern matches, over an ABSTRACT match relation (FilterPattern::matches '
                      'stubbed; glob semantics of the wax crate and the "same pipeline with that rule deleted" equivalence are not covered)'),
     'C08': ('proof', 'value-level kernel of the static evaluator (truthiness, and/or folding, raw equality over all doubles, string '
-                     'order, length, maybe_metatable, multi-value test) against Lua 5.1 value semantics; a definite answer must be '
+                     'order, length, maybe_metatable, multi-value test; folding of + - < <= > >= on number constants over all doubles, ^ over all doubles '
+                     'against an uninterpreted libm pow, * / // % on enumerated operands) against Lua 5.1 value semantics; a definite answer must be '
                      'the real one'),
 }
 
